@@ -24,7 +24,8 @@ Check (C05_roundtrip : forall p v, bytes_ok p -> parse p = Ok v ->
     uncompress p = Ok q /\ bytes_ok q /\ parse q = Ok v' /\ uncompress q = Ok q /\
     reading p qls qt lxa lxn lxr /\ reading q qls qt lxa' lxn' lxr' /\
     map plain_record lxa' = map plain_record lxa /\ map plain_record lxn' = map plain_record lxn /\
-    map plain_record lxr' = map plain_record lxr).
+    map plain_record lxr' = map plain_record lxr /\
+    Forall2 same_rec (lxa ++ lxn ++ lxr) (lxa' ++ lxn' ++ lxr')).
 Print Assumptions C05_roundtrip.
 Check (C05_reading_unique : forall p qls qt lxa lxn lxr qls' qt' lxa' lxn' lxr',
   reading p qls qt lxa lxn lxr -> reading p qls' qt' lxa' lxn' lxr' ->
